@@ -63,7 +63,11 @@ RULE = ("Case = element Z (1..18, small Z favoured) x mock AtomicData whose ioni
         "1.05-3 n_e (over-neutral: only densities >= 0 is demanded there, the full relations at the other points). A species given as a "
         "{charge: array | Function1D | Function2D} dictionary (match_plasma_neutrality, interpolators1d/2d_ and equilibrium_map3d_ "
         "variants) has its keys inserted in a drawn order - ascending, reversed, random permutation, neutral last - and must give the "
-        "ndarray / ascending result (1e-12) with neutrality holding. Every "
+        "ndarray / ascending result (1e-12) with neutrality holding. Every ndarray argument of every entry point (n_e, T_e, n_D, element "
+        "density, species densities incl. the charge axis; 1-D and 2-D) is handed over in a drawn layout holding the same values - C, "
+        "Fortran, strided view of a larger buffer, reversed view, float32 (values rounded to float32 first; never n_e and n_D both, "
+        "numpy would divide them in float32), int64 (T_e only), read-only - independently per argument or the same for all, a third of "
+        "the repr variants all-ndarray; the oracles are unchanged and the caller's arrays must be unmodified afterwards. Every "
         "interpolators1d_* / interpolators2d_* / equilibrium_map3d_* wrapper is compared with the direct array call given the same "
         "donor arguments, and is required to have been hit with a donor that moves a fraction by > 1e-3. Each point is classified a priori "
         "from the oracle side: main class iff 20 eps cond2(A) + 1e-13 <= 1e-6 and min exact fraction above that tolerance; only "
@@ -95,7 +99,11 @@ REQUIRED_LABELS = ["fractional:donor", "fractional:nodonor", "fractional:nt", "d
                   ["map3d:donor:equilibrium_map3d_%s" % w for w in ("fractional", "from_elementdensity", "match_plasma_neutrality")] + \
                   ["densities:dict-nonasc:match_plasma_neutrality", "repr:dict-nonasc:match_plasma_neutrality",
                    "repr:dict-nonasc:interpolators1d_match_plasma_neutrality", "repr:dict-nonasc:interpolators2d_match_plasma_neutrality",
-                   "map3d:dict-nonasc:equilibrium_map3d_match_plasma_neutrality"]
+                   "map3d:dict-nonasc:equilibrium_map3d_match_plasma_neutrality"] + \
+                  ["%s:layout:%s" % (sub, k) for sub in ("fractional", "densities", "repr") for k in ("strided", "reversed", "f32", "int", "readonly")] + \
+                  ["densities:layout-nd:F", "repr:layout-nd:F", "repr:layout-nd:strided", "repr:layout-nd:reversed", "repr:layout2d:no-C-profile",
+                   "fractional:layout-mode:same", "fractional:layout-mode:indep", "densities:layout-mode:same", "densities:layout-mode:indep",
+                   "repr:layout-mode:same", "repr:layout-mode:indep"]
 
 DONORS = {"H0": ("hydrogen", 0, False), "D0": ("deuterium", 0, True), "He0": ("helium", 0, False), "He1": ("helium", 1, False)}
 
@@ -262,6 +270,80 @@ def _check_fractions(ctx, got, pts, what):
                   lambda: "pair balance residual / max flux = %r > %r" % (res.tolist(), lim.tolist()))
 
 
+# ----------------------------------------------------------------------------------------------- array layouts
+# Every ndarray argument is handed over in a drawn memory layout / dtype / writeability holding the SAME values, so all oracles
+# apply unchanged.  f32 / int need values representable in that dtype: _canon rounds them first (part of building the case's values).
+LAYOUTS = ["C", "F", "strided", "reversed", "f32", "int", "readonly"]
+ARGS = ["ne", "te", "nd", "nel", "sp"]
+
+
+@st.composite
+def _layouts(draw):
+    if draw(st.booleans()):
+        k = draw(st.sampled_from(LAYOUTS))
+        return dict({a: k for a in ARGS}, mode="same")
+    return dict({a: draw(st.sampled_from(LAYOUTS)) for a in ARGS}, mode="indep")
+
+
+def _kinds(holder):
+    lay = holder.get("layout") or {}
+    k = {a: lay.get(a, "C") for a in ARGS}
+    for a in ARGS:
+        if k[a] == "int" and a != "te":
+            k[a] = "C"                  # densities of 1e17-1e21 are not meaningful as integers (overflow int64)
+    if k["ne"] == "f32" and k["nd"] == "f32":
+        k["nd"] = "C"                   # numpy evaluates n_D / n_e in float32 when BOTH are float32 (6e-8): not the code's arithmetic
+    return k
+
+
+def _canon(a, kind):
+    a = np.array(a, dtype=float)
+    if kind == "f32":
+        return a.astype(np.float32).astype(float)
+    if kind == "int":
+        return np.maximum(1.0, np.rint(a))
+    return a
+
+
+def _lay(a, kind, ctx=None, keep=None, name=""):
+    """array with the values of `a` (already _canon-ed for this kind) in the requested layout"""
+    a = np.ascontiguousarray(np.asarray(a, dtype=float))
+    rev = (slice(None, None, -1),) * a.ndim
+    if kind == "F" and a.ndim >= 2:
+        out = np.ascontiguousarray(a.T).T
+    elif kind == "strided":
+        gap = 0.5 * float(np.max(a)) if a.size and np.max(a) > 0 else 1.0       # finite, positive, wrong
+        buf = np.full(tuple(2 * n for n in a.shape), gap)
+        buf[(slice(None, None, 2),) * a.ndim] = a
+        out = buf[(slice(None, None, 2),) * a.ndim]
+    elif kind == "reversed":
+        out = np.ascontiguousarray(a[rev])[rev]
+    elif kind == "f32" and np.array_equal(a.astype(np.float32).astype(float), a):
+        out = a.astype(np.float32)
+    elif kind == "int" and np.array_equal(np.rint(a), a):
+        out = a.astype(np.int64)
+    elif kind == "readonly":
+        out = a.copy()
+        out.flags.writeable = False
+    else:
+        kind, out = "C", a.copy()
+    if ctx is not None:
+        ctx.label("layout:" + kind)
+        if a.ndim >= 2 and kind != "C":
+            ctx.label("layout-nd:" + kind)
+    if keep is not None:
+        keep.append((name, out, out.copy(), out.strides, out.flags.writeable))
+    return out
+
+
+def _unchanged(ctx, keep):
+    """the caller's arrays are exactly as they were handed over"""
+    for name, arr, snap, strides, wr in keep:
+        ctx.check(arr.dtype == snap.dtype and arr.shape == snap.shape and arr.strides == strides and arr.flags.writeable == wr
+                  and np.array_equal(arr, snap), "caller-array-unchanged",
+                  lambda: "argument %s was modified by the call: %r -> %r" % (name, snap.tolist(), arr.tolist()))
+
+
 # ----------------------------------------------------------------------------------------------- strategies
 _unit = st.one_of(st.floats(0.0, 1.0), st.sampled_from([0.0, 1.0]))
 
@@ -306,7 +388,7 @@ def strat_fractional(draw):
     rates = draw(_rates(z, donor is not None))
     n = draw(st.integers(1, 4))
     return {"Z": z, "donor": donor, "rates": rates, "pts": draw(_points(rates, n, donor)),
-            "scalar": draw(st.booleans()) if n == 1 else False}
+            "scalar": draw(st.booleans()) if n == 1 else False, "layout": draw(_layouts())}
 
 
 def _labels(ctx, z, pts, donor_on):
@@ -325,9 +407,16 @@ def _nontrivial(pts_cx, pts_plain, donor_on):
     return False
 
 
-def _split(case, with_cx):
+def _canon_pts(case, kinds):
+    """the case's points with the values rounded to what the drawn dtype of each argument can hold"""
+    pts = np.array(case["pts"], dtype=float).reshape(-1, 3)
+    cols = [_canon(pts[:, j], kinds[a]) for j, a in enumerate(("ne", "te", "nd"))]
+    return [[float(cols[0][k]), float(cols[1][k]), float(cols[2][k])] for k in range(len(pts))]
+
+
+def _split(case, with_cx, pts=None):
     z, r = case["Z"], case["rates"]
-    return [Point(r, z, p[0], p[1], p[2], with_cx) for p in case["pts"]]
+    return [Point(r, z, p[0], p[1], p[2], with_cx) for p in (case["pts"] if pts is None else pts)]
 
 
 def _skip_label(ctx, n):
@@ -341,10 +430,13 @@ def run_fractional(case, ctx):
     el = lookup_element(z)
     donor, q = _donor(case)
     data = MockData(case["rates"], el, donor, q)
-    raw = case["pts"]
-    plain = _split(case, False)
-    cx = _split(case, True) if donor is not None else plain
+    kinds, keep = _kinds(case), []
+    raw = _canon_pts(case, kinds)
+    ctx.label("layout-mode:" + (case.get("layout") or {}).get("mode", "none"))
+    plain = _split(case, False, raw)
+    cx = _split(case, True, raw) if donor is not None else plain
     donor_on = donor is not None and any(p[2] > 0 for p in raw)
+    arr = lambda j, a, idx: _lay([raw[k][j] for k in idx], kinds[a], ctx, keep, a)
     # --- with the donor
     if donor is not None:
         idx = [k for k in range(len(raw)) if cx[k].main]
@@ -355,11 +447,11 @@ def run_fractional(case, ctx):
                 args = (raw[idx[0]][0], raw[idx[0]][1], donor, raw[idx[0]][2], q)
                 ctx.label("scalar")
             else:
-                args = (np.array([raw[k][0] for k in idx]), np.array([raw[k][1] for k in idx]), donor,
-                        np.array([raw[k][2] for k in idx]), q)
+                args = (arr(0, "ne", idx), arr(1, "te", idx), donor, arr(2, "nd", idx), q)
             with ctx.cut("fractional_abundance(donor)"):
                 got = IB.fractional_abundance(data, el, *args)
             _check_fractions(ctx, got, [cx[k] for k in idx], "donor")
+            _unchanged(ctx, keep)
             if _nontrivial([cx[k] for k in idx], [plain[k] for k in idx], donor_on):
                 ctx.nt()
                 ctx.label("nt")
@@ -372,10 +464,11 @@ def run_fractional(case, ctx):
         if case.get("scalar") and len(idx) == 1:
             args = (raw[idx[0]][0], raw[idx[0]][1])
         else:
-            args = (np.array([raw[k][0] for k in idx]), np.array([raw[k][1] for k in idx]))
+            args = (arr(0, "ne", idx), arr(1, "te", idx))
         with ctx.cut("fractional_abundance(no donor)"):
             got = IB.fractional_abundance(MockData(case["rates"], el), el, *args)
         _check_fractions(ctx, got, [plain[k] for k in idx], "nodonor")
+        _unchanged(ctx, keep)
         if donor is None and _nontrivial([plain[k] for k in idx], [plain[k] for k in idx], False):
             ctx.nt()
             ctx.label("nt")
@@ -437,7 +530,7 @@ def strat_densities(draw):
     case = {"Z": z, "donor": donor, "rates": rates, "pts": pts,
             "nel": [draw(st.floats(-8.0, 0.3)) for _ in range(n)],          # log10(n_el / n_e)
             "species": draw(_species(draw(st.integers(0, 2)))),
-            "spec_as_dict": draw(st.booleans()), "sp_order": draw(_order_st),
+            "spec_as_dict": draw(st.booleans()), "sp_order": draw(_order_st), "layout": draw(_layouts()),
             "scalar": draw(st.booleans()) if n == 1 else False}
     # per-point multiplier of the other species' densities: 1, or such that they carry 1.05-3 x the charge n_e (over-neutral
     # point: neutrality cannot hold, the bulk is documented to be clamped to zero there)
@@ -453,9 +546,11 @@ def run_densities(case, ctx):
     el = lookup_element(z)
     donor, q = _donor(case)
     data = MockData(case["rates"], el, donor, q)
-    raw = case["pts"]
-    cx = _split(case, donor is not None)
-    plain = _split(case, False) if donor is not None else cx
+    kinds, keep = _kinds(case), []
+    raw = _canon_pts(case, kinds)
+    ctx.label("layout-mode:" + (case.get("layout") or {}).get("mode", "none"))
+    cx = _split(case, donor is not None, raw)
+    plain = _split(case, False, raw) if donor is not None else cx
     # the buggy tree solves the donor-free system: both systems must be main class to call in-process safely
     idx = [k for k in range(len(raw)) if cx[k].main and plain[k].main]
     _skip_label(ctx, len(raw) - len(idx))
@@ -470,17 +565,19 @@ def run_densities(case, ctx):
     ne = np.array([raw[k][0] for k in idx])
     te = np.array([raw[k][1] for k in idx])
     nd = np.array([raw[k][2] for k in idx])
-    nel = np.array([raw[k][0] * 10.0 ** case["nel"][k] for k in idx])
+    nel = _canon([raw[k][0] * 10.0 ** case["nel"][k] for k in idx], kinds["nel"])
     scalar = bool(case.get("scalar")) and len(idx) == 1
     if scalar:
         ctx.label("scalar")
-    dargs = (donor, float(nd[0]) if scalar else nd, q) if donor is not None else ()
+    # what is handed to the code: python floats, or arrays in the drawn layouts (values as in ne / te / nd / nel)
+    a_ne, a_te, a_nd, a_nel = [float(v[0]) if scalar else _lay(v, kinds[a], ctx, keep, a)
+                               for v, a in ((ne, "ne"), (te, "te"), (nd, "nd"), (nel, "nel"))]
+    dargs = (donor, a_nd, q) if donor is not None else ()
 
     # --- from_elementdensity
     ctx.label("elementdensity")
     with ctx.cut("from_elementdensity"), _quiet():
-        got = IB.from_elementdensity(data, el, float(nel[0]) if scalar else nel, float(ne[0]) if scalar else ne,
-                                     float(te[0]) if scalar else te, *dargs)
+        got = IB.from_elementdensity(data, el, a_nel, a_ne, a_te, *dargs)
     ctx.check(isinstance(got, dict) and sorted(got) == list(range(z + 1)), "elementdensity:keys", lambda: "keys %r" % (sorted(got),))
     arr = np.array([np.asarray(got[c], dtype=float).reshape(-1) for c in range(z + 1)])
     ctx.check(arr.shape == (z + 1, len(idx)), "elementdensity:shape", lambda: "shape %r" % (arr.shape,))
@@ -501,12 +598,17 @@ def run_densities(case, ctx):
     qmul = [case.get("qmul", [1.0] * len(raw))[k] for k in idx]
     species, qtot = [], np.zeros(len(idx))
     for w in spec_w:
-        dens = np.array([[w[c] * qmul[k] * ne[k] for k in range(len(idx))] for c in range(len(w))])
+        dens = _canon([[w[c] * qmul[k] * ne[k] for k in range(len(idx))] for c in range(len(w))], kinds["sp"])
         for c in range(len(w)):
             qtot = qtot + c * dens[c]
-        species.append(_as_dict(dens, case.get("sp_order"), ctx, ["match_plasma_neutrality"]) if case.get("spec_as_dict") else dens)
+        if case.get("spec_as_dict"):
+            species.append(_as_dict([_lay(dens[c], kinds["sp"], ctx, keep, "species[%d]" % c) for c in range(len(w))],
+                                    case.get("sp_order"), ctx, ["match_plasma_neutrality"]))
+        else:
+            species.append(_lay(dens, kinds["sp"], ctx, keep, "species"))      # incl. the charge-state axis
     with ctx.cut("match_plasma_neutrality"), _quiet():
-        got = IB.match_plasma_neutrality(data, el, species, float(ne[0]) if scalar else ne, float(te[0]) if scalar else te, *dargs)
+        got = IB.match_plasma_neutrality(data, el, species, a_ne, a_te, *dargs)
+    _unchanged(ctx, keep)
     ctx.check(isinstance(got, dict) and sorted(got) == list(range(z + 1)), "neutrality:keys", lambda: "keys %r" % (sorted(got),))
     arr = np.array([np.asarray(got[c], dtype=float).reshape(-1) for c in range(z + 1)])
     ctx.check(arr.shape == (z + 1, len(idx)), "neutrality:shape", lambda: "shape %r" % (arr.shape,))
@@ -620,9 +722,12 @@ def strat_repr(draw):
         species.append([dict(ne, mul=wc) for wc in w])
     kinds = ["arr", "py", "interp"] if shape != "0d" else ["arr", "py"]
     nvar = draw(st.integers(1, 3))
-    variants = [{"ne": draw(st.sampled_from(kinds)), "te": draw(st.sampled_from(kinds)), "nd": draw(st.sampled_from(kinds)),
-                 "nel": draw(st.sampled_from(kinds)), "sp": draw(st.sampled_from(kinds + ["arrdict"])),
-                 "fv": draw(st.sampled_from(["tuple", "list"])), "order": draw(_order_st)} for _ in range(nvar)]
+    variants = []
+    for _ in range(nvar):
+        kk = ["arr"] if draw(st.integers(0, 2)) == 0 else kinds         # a third of the variants: every argument an ndarray
+        variants.append({"ne": draw(st.sampled_from(kk)), "te": draw(st.sampled_from(kk)), "nd": draw(st.sampled_from(kk)),
+                         "nel": draw(st.sampled_from(kk)), "sp": draw(st.sampled_from(kk + ["arrdict"])),
+                         "fv": draw(st.sampled_from(["tuple", "list"])), "order": draw(_order_st), "layout": draw(_layouts())})
     return {"Z": z, "donor": donor, "rates": rates, "shape": shape, "fv": fv, "fvtype": fvtype, "ne": ne, "te": te, "nd": nd,
             "nel": nel, "species": species, "variants": variants, "scalar_pts": draw(st.integers(0, 2))}
 
@@ -697,9 +802,13 @@ def run_repr(case, ctx):
             return arrs[0]
         return tuple(arrs) if v["fv"] == "tuple" else list(arrs)
 
-    def rep(name, kind):
+    keep = []
+
+    def rep(name, kind, lk):
         if kind in ("arr", "arrdict"):
-            return float(vals[name].ravel()[0]) if shape_kind == "0d" else vals[name]
+            if shape_kind == "0d":
+                return float(vals[name].ravel()[0])
+            return _lay(_canon(vals[name], lk[name]), lk[name], ctx, keep, name)       # drawn memory layout / dtype
         return _mkfn(case[name], dim, kind, fv)
 
     def sample(obj):
@@ -711,19 +820,28 @@ def run_repr(case, ctx):
         f = free(v)
         need_fv = lambda *ks: any(k in ("py", "interp") for k in ks)
         names = ["ne", "te", "nel"] + (["nd"] if donor is not None else [])
-        obj = {n: rep(n, v[n]) for n in names}
+        lk = _kinds(v)
+        ctx.label("layout-mode:" + (v.get("layout") or {}).get("mode", "none"))
+        obj = {n: rep(n, v[n], lk) for n in names}
+        if shape_kind == "2d" and all(isinstance(obj[n], np.ndarray) and not obj[n].flags.c_contiguous
+                                      for n in ["ne", "te"] + (["nd"] if donor is not None else [])):
+            ctx.label("layout2d:no-C-profile")      # no C-ordered n_e / T_e / n_D: iteration order is not pinned by any operand
         # raysect interpolators return the node values only to rounding and the computed least-squares solution is not a
         # continuous function of its input at the 1e-12 level: compare with the array call on exactly the sampled values
-        vv = {n: (sample(obj[n]) if isinstance(obj[n], (Function1D, Function2D)) else vals[n]) for n in names}
+        vv = {n: (sample(obj[n]) if isinstance(obj[n], (Function1D, Function2D)) else
+                  np.array(obj[n], dtype=float).reshape(shape)) for n in names}      # f32 / int layouts hold rounded values
         sp_in, sp_arr = [], []
         entries = ["match_plasma_neutrality"] + (["interpolators1d_match_plasma_neutrality"] if shape_kind == "1d" else
                                                  ["interpolators2d_match_plasma_neutrality"] if shape_kind == "2d" else [])
         for s, sv in zip(case["species"], spec_vals):
             if v["sp"] == "arr":
-                sp_in.append(sv)
+                sv = _canon(sv, lk["sp"])
+                sp_in.append(_lay(sv, lk["sp"], ctx, keep, "species"))         # incl. the charge-state axis
                 sp_arr.append(sv)
             elif v["sp"] == "arrdict":
-                sp_in.append(_as_dict(sv, v.get("order"), ctx, entries))
+                sv = _canon(sv, lk["sp"])
+                sp_in.append(_as_dict([_lay(sv[c], lk["sp"], ctx, keep, "species[%d]" % c) for c in range(len(s))],
+                                      v.get("order"), ctx, entries))
                 sp_arr.append(sv)
             else:
                 fns = [_mkfn(s[c], dim, v["sp"], fv) for c in range(len(s))]
@@ -793,6 +911,8 @@ def run_repr(case, ctx):
                     g = np.array([[[itp[c](float(xx), float(yy)) for yy in fv[1]] for xx in fv[0]] for c in range(z + 1)])
                 _same(ctx, g, ref, nm + ":interp2d-nodes")
 
+    _unchanged(ctx, keep)
+
     # --- python scalars, point by point
     for k in range(min(case.get("scalar_pts", 0), len(grid))):
         ctx.label("scalar-points")
@@ -840,6 +960,7 @@ def strat_map3d(draw):
     return {"Z": z, "donor": donor, "rates": rates, "psin": psin, "ne": prof(rates["ne0"], 0.4), "te": prof(rates["te0"], 0.4),
             "nd": nd, "nel": prof(rates["ne0"] * 1e-3, 1.0), "species": species,
             "as_fn": draw(st.booleans()), "sp": draw(st.sampled_from(["arr", "arrdict", "py"])), "sp_order": draw(_order_st),
+            "layout": draw(_layouts()),
             "rz": [[draw(st.floats(0.0, 1.0)), draw(st.floats(0.0, 1.0)), draw(st.floats(0.0, 6.2))] for _ in range(6)]}
 
 
@@ -850,7 +971,10 @@ def run_map3d(case, ctx):
     donor, q = _donor(case)
     data = MockData(case["rates"], el, donor, q)
     psin = np.array(case["psin"])
+    lk, keep = _kinds(case), []
     vals = {k: np.array([_prof(case[k], x) for x in psin]) for k in ("ne", "te", "nd", "nel")}
+    if not case["as_fn"]:
+        vals = {k: _canon(vals[k], lk[k]) for k in vals}       # profile arrays are handed over in the drawn layouts / dtypes
     flat = [Point(case["rates"], z, float(a), float(b), float(c), donor is not None) for a, b, c in zip(vals["ne"], vals["te"], vals["nd"])]
     flat0 = [Point(case["rates"], z, float(a), float(b), 0.0, False) for a, b in zip(vals["ne"], vals["te"])]
     if not all(p.main for p in flat) or not all(p.main for p in flat0):
@@ -858,10 +982,13 @@ def run_map3d(case, ctx):
         return
     ctx.label("donor" if donor is not None else "nodonor")
     fv = [list(psin)]
-    rep = (lambda k: _mkfn(case[k], 1, "py", fv)) if case["as_fn"] else (lambda k: vals[k])
+    objs = {k: (_mkfn(case[k], 1, "py", fv) if case["as_fn"] else _lay(vals[k], lk[k], ctx, keep, k)) for k in vals}
+    rep = lambda k: objs[k]
     dargs = (donor, vals["nd"], q) if donor is not None else ()
     dv = (donor, rep("nd"), q) if donor is not None else ()
     spec_vals = [np.array([[_prof(s, x) for x in psin] for s in sp]) for sp in case["species"]]
+    if case.get("sp", "arr") != "py":
+        spec_vals = [_canon(sv, lk["sp"]) for sv in spec_vals]
     with ctx.cut("direct calls"), _quiet():
         r_frac = _stack(IB.fractional_abundance(data, el, vals["ne"], vals["te"], *dargs), z, psin.shape, ctx, "frac")
         r_den = _stack(IB.from_elementdensity(data, el, vals["nel"], vals["ne"], vals["te"], *dargs), z, psin.shape, ctx, "den")
@@ -869,14 +996,16 @@ def run_map3d(case, ctx):
     sp_in = []
     for sp, sv in zip(case["species"], spec_vals):      # species as ndarray, or as {charge: array | Function1D} in the drawn key order
         if case.get("sp", "arr") == "arr":
-            sp_in.append(sv)
+            sp_in.append(_lay(sv, lk["sp"], ctx, keep, "species"))
         else:
-            items = list(sv) if case["sp"] == "arrdict" else [_mkfn(sc, 1, "py", fv) for sc in sp]
+            items = [_lay(row, lk["sp"], ctx, keep, "species[]") for row in sv] if case["sp"] == "arrdict" else \
+                [_mkfn(sc, 1, "py", fv) for sc in sp]
             sp_in.append(_as_dict(items, case.get("sp_order"), ctx, ["equilibrium_map3d_match_plasma_neutrality"]))
     with ctx.cut("equilibrium_map3d_*"), _quiet():
         m_f = IB.equilibrium_map3d_fractional(data, el, eq, psin, rep("ne"), rep("te"), *dv)
         m_d = IB.equilibrium_map3d_from_elementdensity(data, el, eq, psin, rep("nel"), rep("ne"), rep("te"), *dv)
         m_n = IB.equilibrium_map3d_match_plasma_neutrality(data, el, eq, psin, sp_in, rep("ne"), rep("te"), *dv)
+    _unchanged(ctx, keep)
     r0, r1 = eq.r_range
     z0, z1 = eq.z_range
     n_in = 0
